@@ -239,6 +239,29 @@ def apalache_inductive(module, init, inv, cinit="ConstInit", timeout=600):
     return {"tool": "apalache-mc 0.58", "module": module, "inductive_invariant": inv, "obligations": steps}
 
 
+def tlaps_proof(module, timeout=900):
+    """
+    Check a TLAPS proof module with tlapm (all back ends; fingerprints and temporary files go to a scratch directory).
+    Returns a dict for the evidence notes; raises MachineryError unless every obligation is proved.
+    """
+    out = workdir("tlapm")
+    started = time.time()
+    try:
+        command = ["tlapm", "--cleanfp", "--cache-dir", out, "-I", SPEC, os.path.join(SPEC, module)]
+        try:
+            done = subprocess.run(command, cwd=SPEC, stdout=subprocess.PIPE, stderr=subprocess.STDOUT, universal_newlines=True,
+                                  timeout=timeout)
+        except (OSError, subprocess.TimeoutExpired) as error:
+            raise MachineryError("tlapm could not be run for %s: %s" % (module, error))
+        match = re.search(r"All (\d+) obligations? proved", done.stdout)
+        if done.returncode != 0 or not match:
+            raise MachineryError("tlapm %s: not every obligation is proved: %s" % (module, done.stdout[-800:]))
+    finally:
+        cleanup(out)
+    return {"tool": "tlapm 1.6.0-pre", "module": module, "obligations_proved": int(match.group(1)),
+            "wall_s": round(time.time() - started, 1)}
+
+
 def read_independently(make_reader):
     """
     list(make_reader()), read a second time while (a) a reader abandoned after its first item is still alive and (b) a
@@ -267,7 +290,9 @@ def require_coverage(result, actions, module=None):
 
 
 def sany(module):
-    cmd = ["java", "-DTLA-Library=" + SPEC, "-cp", TLA_CP, "tla2sany.SANY", os.path.join(SPEC, module + ".tla")]
+    # (proof modules extend TLAPS.tla, which comes with tlapm)
+    library = SPEC + os.pathsep + "/opt/veriftools/tlapm/lib/tlapm/stdlib"
+    cmd = ["java", "-DTLA-Library=" + library, "-cp", TLA_CP, "tla2sany.SANY", os.path.join(SPEC, module + ".tla")]
     process = subprocess.run(cmd, cwd=SPEC, stdout=subprocess.PIPE, stderr=subprocess.STDOUT, universal_newlines=True)
     ok = process.returncode == 0 and "Semantic errors" not in process.stdout and "***Parse Error***" not in process.stdout \
         and "Fatal errors" not in process.stdout and "Could not" not in process.stdout
